@@ -188,6 +188,7 @@ func Marshal(data any, args ...any) (out []byte, err error) {
 		wr, _ = marshalPool.Get().(*Writer)
 		defer marshalPool.Put(wr)
 	} else {
+		defer func(strict bool) { wr.strict = strict }(wr.strict)
 		wr.strict = true
 	}
 	defer func() {
